@@ -131,6 +131,8 @@ M('interface: phi[k] /= on param when phi = Y', lambda: edit('act_one', "    phi
 M('cross: info read before update (if info.get("stop"))', lambda: edit('cross', "    _time = tpc()\n    info.update", "    _time = tpc()\n    if info.get('stop'):\n        return Y0\n    info.update"))
 M('als_func: nonlocal counter through default list arg', lambda: edit('func', "def func_sum(A, a, b, kind='cheb'):", "def func_sum(A, a, b, kind='cheb', _calls=[]):") or edit('func', "    assert kind in ['cheb', 'sin']\n\n    d = len(A)\n    n = teneva.shape(A)\n    n_max", "    assert kind in ['cheb', 'sin']\n    _calls.append(1)\n\n    d = len(A)\n    n = teneva.shape(A)\n    n_max"))
 M('generator stored globally: rand = _GEN (module-level generator)', lambda: edit('sample', "import teneva\n", "import teneva\n_GEN = np.random.default_rng(0)\n", 1) or edit('sample', "    rand = teneva._rand(seed)\n\n    I = np.vstack", "    rand = _GEN\n\n    I = np.vstack"))
+M('cross: stale key removed by a pop statement (pure removal, nothing read)', lambda: edit('cross', "    _time = tpc()\n    info.update", "    _time = tpc()\n    info.pop('left_over', None)\n    info.update"), 'quiet')
+M('cross: popped leftover value used (read before written)', lambda: edit('cross', "    _time = tpc()\n    info.update", "    _time = tpc()\n    if info.pop('left_over', None):\n        return Y0\n    info.update"))
 
 
 def run(only=None, verbose=False, out=print):
